@@ -206,7 +206,7 @@ PROPS["C06"] = dict(
 )
 
 PROPS["C05"] = dict(
-    props_file="Props/C05.v",
+    props_file="Props/C05.v", gen=["StrategyGen"],
     suites=[dict(suite="strategy", corr=["diff"], monitors=["mon_rr", "mon_wrr_exact", "mon_wrr_bound", "mon_wrr_proved", "mon_lc"],
                  classifiers={"wrr-flap-beyond-two-ratio": "cls_wrr_flap", "wrr-stale-after-removal": "cls_wrr_removed"}, nontrivial="nt_c05"),
             # "weights below 1 count as 1" on every path a backend can be added by (configuration and admin API)
@@ -224,10 +224,15 @@ PROPS["C05"] = dict(
                "The constant the property names, 2 W_T/W_E, is REFUTED (C05_wrr_two_ratio_refuted: weights 8,1,1,1,1 after 88 picks "
                "between health changes; replayed on the real strategy by the corpus, known finding wrr-flap-beyond-two-ratio); the "
                "stated constant is still monitored on every implementation trace and every failure outside that class is reported. "
-               "Tie: same operation sequences on the real strategy objects, pick by pick.",
+               "The three selection functions ARE the source: go2coq regenerates the NextBackend loops of round_robin.go, "
+               "least_connections.go and weighted_round_robin.go (Gen/StrategyGen.v: loops over slice indices, pointers into the slice as "
+               "indices, early return / continue) and Proofs/StrategyRefine.v proves that they compute the models' picks, counter and running "
+               "weights for every pool (C05_rr_is_source, C05_lc_is_source, C05_wrr_is_source). "
+               "Tie H: same operation sequences on the real strategy objects, pick by pick.",
     level_note="Trusted: Coq kernel, harness, Model/Strategy.v. atomic.AddUint64 is assumed atomic; concurrency of round robin is "
                "exercised with 2..64 goroutines (exact per-backend totals), not proved beyond the atomic-step argument.",
-    trusted_base=["Model/Strategy.v (hand-written; tied by the strategy suite)"],
+    trusted_base=["go2coq strategy-loop translator (Gen/StrategyGen.v; how a slice element's Go accessors map to the model's fields is its configuration)",
+                  "Model/Strategy.v (hand-written: pool operations, hash strategies; tied by the strategy suite)"],
     assumptions=["counter window does not cross 2^64", "weights >= 1 (AddBackend clamp, decided with the lbseq suite)"],
 )
 
@@ -239,7 +244,7 @@ _LB_TRUST = ["model Model/LB.v (+Strategy/Limiter/Breaker/ClientIP) of internal/
                   "harness: scripted in-memory RoundTrippers per backend, testing/synctest virtual clock, request context carrying http.ServerContextKey"]
 
 PROPS["C02"] = dict(
-    props_file="Props/C02.v", gen=["HealthGen"],
+    props_file="Props/C02.v", gen=["HealthGen", "StrategyGen"],
     suites=[dict(suite="lbseq", corr=["diff_begin"], monitors=["mon_c02_disp", "mon_c02_503"],
                  classifiers={}, nontrivial="nt_c02"),
             # ejection by the active checker: no traffic inside the window whatever later probes say
